@@ -9,8 +9,10 @@ import glob, json, os, shutil, subprocess, sys
 a = sys.argv[1:]
 root = a[0]
 a = a[1:]
-slot, runs = "1", "250000"
+slot, runs, offset = "1", "250000", 0
 while a and a[0].startswith("--"):
+    if a[0] == "--offset":
+        offset = int(a[1])
     if a[0] == "--slot":
         slot = a[1]
     if a[0] == "--runs":
@@ -20,7 +22,7 @@ only = set(a)
 for d in sorted(glob.glob(f"{root}/*/benign-out/*/")):
     parts = d.rstrip("/").split("/")
     pid, k = parts[-3], parts[-1]
-    sid = f"{pid}-{k}"
+    sid = f"{pid}-{int(k) + offset}"
     if only and sid not in only and pid not in only:
         continue
     if not os.path.exists(d + "patch.diff") or not os.path.exists(d + "meta.json"):
